@@ -74,7 +74,7 @@ theorem allSuf_exec (hl : LocOK loc)
   intro u
   cases i
   case connRead =>
-    simp only [exec]
+    simp only [exec, flushBody]
     repeat' split
     all_goals
       first
@@ -84,7 +84,7 @@ theorem allSuf_exec (hl : LocOK loc)
            · first | exact hl.rdNext | exact hl.exit
            · exact hall u)
   case popCont =>
-    simp only [exec]
+    simp only [exec, flushBody]
     split
     · simp only [setProg_prog, closeConn_prog]
       split
@@ -95,7 +95,7 @@ theorem allSuf_exec (hl : LocOK loc)
       · exact allSuf_cons hp _ _ rfl h1
       · exact hall u
   case closeSwap =>
-    simp only [exec]
+    simp only [exec, flushBody]
     split
     all_goals
       simp only [setProg_prog]
@@ -108,7 +108,7 @@ theorem allSuf_exec (hl : LocOK loc)
         · first | exact h1 | exact allSuf_cons hp _ _ rfl h1
       · exact hall u
   case delByTag tag rep caps =>
-    simp only [exec]
+    simp only [exec, flushBody]
     split
     · simp only [setProg_prog]
       split
@@ -125,12 +125,12 @@ theorem allSuf_exec (hl : LocOK loc)
         · exact allSuf_append hp _ _ (pushed_complete _ _ _) h1
       · exact hall u
   case loadDone c r =>
-    simp only [exec, setProg_prog]
+    simp only [exec, flushBody, setProg_prog]
     split
     · exact allSuf_cons hp _ _ rfl h1
     · exact hall u
   case idleGo c =>
-    simp only [exec]
+    simp only [exec, flushBody]
     split
     · exact hall u
     · simp only [setProg_prog]
@@ -140,7 +140,7 @@ theorem allSuf_exec (hl : LocOK loc)
         · exact h1
         · exact hall u
   case srv a =>
-    simp only [exec]
+    simp only [exec, flushBody]
     split
     · exact hall u
     · cases a <;> simp only [execSrv]
@@ -163,17 +163,17 @@ theorem allSuf_exec (hl : LocOK loc)
       case close => simp only [setProg_prog]; split <;> first | exact h1 | exact hall u
       case rerr => simp only [setProg_prog]; split <;> first | exact h1 | exact hall u
   case cancelConts c r =>
-    simp only [exec, setProg_prog]
+    simp only [exec, flushBody, setProg_prog]
     split
     · exact h1
     · rw [updCmd_prog, foldl_setCont2_prog]; exact hall u
   case cancelOrphans ks =>
-    simp only [exec, setProg_prog]
+    simp only [exec, flushBody, setProg_prog]
     split
     · exact h1
     · rw [foldl_setCont_prog]; exact hall u
   case rdNext =>
-    simp only [exec]
+    simp only [exec, flushBody]
     split
     · simp only [setProg_prog]; split
       · exact hl.connRead
@@ -182,7 +182,7 @@ theorem allSuf_exec (hl : LocOK loc)
       · exact hl.handler _
       · exact hall u
   all_goals
-    simp only [exec]
+    simp only [exec, flushBody]
     repeat' split
     all_goals
       first
